@@ -170,6 +170,10 @@ def catalogue(rnd, quick):
         add("bad-define", pre + '<a tal:define="«1x y»">t</a>')
         add("bad-define-2nd", pre + '<a tal:define="x 1;« 2y z»">t</a>')
         add("dup-attribute", pre + '<a tal:attributes="a 1;« a 2»">t</a>')
+        add("dup-statement", pre + '<li tal:content="a" «tal:content»="b">t</li>')
+        add("dup-statement-beside-data-statement", pre + '<li tal:content="a" «tal:content»="b" data-tal-define="x 1">t</li>', enable_data_attributes=True)
+        add("dup-statement-beside-two-data-statements", pre + '<li data-tal-omit-tag="" tal:define="a 1" «tal:define»="b 2" data-tal-condition="1">t</li>',
+            enable_data_attributes=True)
         add("case-without-switch", pre + '<a tal:case="«x»">t</a>')
         add("fill-slot-without-use", pre + '<a metal:fill-slot="«s»">t</a>')
         add("fill-slot-empty", pre + '<b metal:use-macro="m"><a metal:fill-slot="« »">t</a></b>')
